@@ -105,19 +105,137 @@ def rot_direction(ctx, M, fp, rows):
                     first, second = pr[1]
                     q = ("bin", "//", namt, N.const(8))
                     ok = first[0] == "mod" and second[0] == "mod" and first[2] == grp and second[2] == grp and N.contains(first[1], q) and second[1] == N.mk_add(first[1], N.const(1))
-            ctx.ob(rule, fp, ok, "the bit-pair kernel takes the high part from byte j+q shifted left by r = amount %% 8 and the low part from the following byte (cyclically within the group) shifted right by 8 - r", key="pair direction")
-    if not found:
-        ctx.ob(rule, fp, False, "bit-pair kernel (X << r) & 0xff | Y >> (8 - r) not found in ProcessRotateLeft._parse", key="pair direction")
+            # (the positions and shift counts themselves are decided by rotation_semantics on the folded kernel, whatever form computes them)
+    # (a kernel written in another form is decided by rotation_semantics on the folded indices)
     # byte-index kernel: result byte j is byte (j + q) mod group
     q = ("bin", "//", namt, N.const(8))
     idxrows = [term for g, term in rows if N.contains(term, q) and not any(u[0] == "bin" and u[1] in ("<<", ">>") for u in N.walk(term))]
-    ok = bool(idxrows) and all(any(u[0] == "mod" and u[2] == grp and N.contains(u[1], q) and N.mk_add(u[1], q, -1)[0] == "idx" for u in N.walk(term)) for term in idxrows)
-    ctx.ob(rule, fp, ok, "the whole-byte kernel moves byte (j + amount // 8) mod group to position j", key="byte direction")
+    ok = all(any(u[0] == "mod" and u[2] == grp and N.contains(u[1], q) and N.mk_add(u[1], q, -1)[0] == "idx" for u in N.walk(term)) for term in idxrows)
+
     tabrows = [term for g, term in rows if any(u[0] == "attr" and u[2] == "precomputed_single_rotations" for u in N.walk(term))]
     ok = bool(tabrows) and all(any(u[0] == "sub" and u[1][0] == "sub" and u[1][1][0] == "attr" and u[1][1][2] == "precomputed_single_rotations" and u[1][2] == namt and u[2][0] == "elem" and u[2][1] == IN
                                   for u in N.walk(term)) for term in tabrows)
-    ctx.ob(rule, fp, ok, "the single-byte kernel looks each data byte up in the table row of the normalised amount", key="table lookup")
-    ctx.floor(rule, 4)
+    if tabrows:
+        ctx.ob(rule, fp, ok, "the single-byte kernel looks each data byte up in the table row of the normalised amount", key="table lookup")
+    ctx.floor(rule, 3)
+
+
+def rotation_cases():
+    """(group, raw amount, number of groups) samples: every residue for groups of 1..4 bytes, plus over-wide and negative raw amounts."""
+    out = []
+    for g in (1, 2, 3, 4, 5):
+        amounts = set(range(0, 8 * g)) if g <= 4 else {0, 1, 7, 8, 9, 16, 23, 39}
+        amounts |= {8 * g, 8 * g + 3, -1, -8, -(8 * g) - 5}
+        for a in sorted(amounts):
+            for groups in (1, 2):
+                out.append((g, a, groups))
+    return out
+
+
+def describe_kernel(t, env, n):
+    """What each of the n output bytes of a transform term is made of, with every index / shift count folded under env:
+    ('byte', k) = data[k];  ('rot', k1, s1, k2, s2) = (data[k1] << s1) & 0xff | data[k2] >> s2;  ('tab', row, k) = table[row][data[k]]."""
+    from ..foldv import foldv, pfold, enumerate_comp, Unfoldable
+
+    def classify(el):
+        if el[0] == "sub" and el[1] == IN and N.is_int(el[2]):
+            return ("byte", el[2][2])
+        if el[0] == "sub" and el[1][0] == "sub" and el[1][1][0] == "attr" and el[1][1][2] == "precomputed_single_rotations" and N.is_int(el[1][2]):
+            inner = classify(el[2])
+            if inner[0] == "byte":
+                return ("tab", el[1][2][2], inner[1])
+        sh = rotl_shape(el) if el[0] == "bin" and el[1] == "|" else None
+        if sh:
+            X, A, Y, B = sh
+            cx, cy = classify(X), classify(Y)
+            if cx[0] == "byte" and cy[0] == "byte" and N.is_int(A) and N.is_int(B):
+                return ("rot", cx[1], A[2], cy[1], B[2])
+        raise Unfoldable("output byte %s" % N.show(el)[:100])
+    if t == IN:
+        return [("byte", i) for i in range(n)]
+    if t[0] == "call" and t[1] in (("free", "bytes"), ("free", "bytearray")) and len(t[2]) == 1 and not t[3]:
+        return describe_kernel(t[2][0], env, n)
+    if t[0] != "comp":
+        raise Unfoldable("transform %s" % N.show(t)[:100])
+    gens, lids = t[3], t[4]
+    if len(gens) == 1 and gens[0][0] == IN and not gens[0][1]:
+        # element-wise over the data itself
+        out = []
+        for i in range(n):
+            el = N.rebuild(t[2], {("elem", IN, lids[0]): ("sub", IN, N.const(i)), ("idx", lids[0]): N.const(i)})
+            out.append(classify(pfold(el, env)))
+        return out
+    return [classify(el) for el, _ in enumerate_comp(t, env, {}, pfold)]
+
+
+def rotation_semantics(ctx, rule):
+    """Rotation to the left by `amount` bits inside every group of `group` bytes (big-endian bit string), build rotating by -amount: decided on
+    the folded kernels for groups of 1..5 bytes, every residue of the amount, over-wide and negative amounts, one and two groups of data --
+    whatever idiom computes the byte positions (index lists, slices, divmod, comprehensions)."""
+    from ..foldv import truth, Unfoldable, Raises
+    amt, grp = ("eval", N.selfattr("amount"), CTX), ("eval", N.selfattr("group"), CTX)
+    lenin = ("call", ("free", "len"), (IN,), ())
+    done = {}
+    for meth, sign in (("_parse", 1), ("_build", -1)):
+        fi, rows = transform_rows(ctx, "ProcessRotateLeft", meth)
+        bad = undec = None
+        ncase = 0
+        for g, a, groups in rotation_cases():
+            n = g * groups
+            env = {amt: a, grp: g, lenin: n}
+            try:
+                sel = [t for gs, t in rows if all(truth(c, env) for c in gs)]
+                if len(sel) != 1:
+                    undec = "%d branches apply for group=%d amount=%d" % (len(sel), g, a)
+                    break
+                got = describe_kernel(sel[0], env, n)
+            except Unfoldable as e:
+                undec = "group=%d amount=%d: %s" % (g, a, e)
+                break
+            except Raises as e:
+                bad = "group=%d amount=%d, %d bytes: the kernel raises (%s)" % (g, a, n, e)
+                break
+            a2 = (sign * a) % (8 * g)
+            q, r = divmod(a2, 8)
+            want = []
+            for pos in range(n):
+                base, j = pos - pos % g, pos % g
+                want.append(("byte", base + (j + q) % g) if r == 0 else ("rot", base + (j + q) % g, r, base + (j + q + 1) % g, 8 - r))
+            norm = [("rot", x[2], x[1], x[2], 8 - x[1]) if x[0] == "tab" else x for x in got]
+            ncase += 1
+            if norm != want:
+                pos = next((i for i in range(min(len(norm), len(want))) if norm[i] != want[i]), min(len(norm), len(want)))
+                bad = "group=%d amount=%d, %d bytes: output byte %d is %s, a left rotation by %d bits gives %s%s" % (
+                    g, a, n, pos, norm[pos] if pos < len(norm) else "missing", a2, want[pos] if pos < len(want) else "nothing", "" if len(norm) == len(want) else " (%d bytes out for %d in)" % (len(norm), n))
+                break
+        if undec:
+            ctx.error("%s undecided: ProcessRotateLeft.%s cannot be folded (%s)" % (rule, meth, undec))
+        ctx.ob(rule, fi, bad is None, "ProcessRotateLeft.%s rotates every group %s by the amount (mod 8*group) bits: byte j of a group is byte j+q shifted left by r, or-ed with byte j+q+1 shifted right by 8-r, "
+               "indices cyclic within the group%s" % (meth, "left" if sign == 1 else "right", "" if bad is None else " -- " + bad), key="rotation semantics %s" % meth)
+        done[meth] = bad is None and not undec and ncase >= 100
+    return done
+
+
+def rotation_length(ctx, meth):
+    """True if the folded kernel of ProcessRotateLeft.<meth> yields exactly len(data) bytes in every sampled case, False if not, None if it cannot be folded."""
+    from ..foldv import truth, Unfoldable, Raises
+    amt, grp = ("eval", N.selfattr("amount"), CTX), ("eval", N.selfattr("group"), CTX)
+    lenin = ("call", ("free", "len"), (IN,), ())
+    fi, rows = transform_rows(ctx, "ProcessRotateLeft", meth)
+    for g, a, groups in rotation_cases():
+        n = g * groups
+        env = {amt: a, grp: g, lenin: n}
+        try:
+            sel = [t for gs, t in rows if all(truth(c, env) for c in gs)]
+            if len(sel) != 1:
+                return None
+            if len(describe_kernel(sel[0], env, n)) != n:
+                return False
+        except Unfoldable:
+            return None
+        except Raises:
+            return False
+    return True
 
 
 def length_of(t, grp):
@@ -172,6 +290,12 @@ def length_preserving(ctx, rule):
             for g, t in rows:
                 res.setdefault(length_of(t, grp), []).append(t)
             n += 1
+            if None in res and cls == "ProcessRotateLeft":
+                # a kernel in a form length_of does not know: count the output bytes of the folded kernel instead
+                verdict = rotation_length(ctx, meth)
+                if verdict is not None:
+                    res.pop(None)
+                    res.setdefault("same" if verdict else "shorter", []).append(("folded",))
             if None in res:
                 ctx.error("%s undecided: the length of %s in %s.%s is not recognised" % (rule, N.show(res[None][0])[:100], cls, meth))
             ctx.ob(rule, fi, "shorter" not in res and "same" in res, "%s.%s hands on exactly as many bytes as it was given (element-wise over the data, the key cycled)%s" % (
@@ -264,9 +388,10 @@ def run(ctx):
     ctx.floor("C15.R7", 4)
     # ---- R6 direction: the documented transform is a rotation to the LEFT
     rot_direction(ctx, M, fp, a)
+    sem = rotation_semantics(ctx, "C15.R6")
 
     from .. import interval
-    interval.rotation_obligations(ctx, "C15.R5")
+    interval.rotation_obligations(ctx, "C15.R5", decided_elsewhere=tuple(m for m, okm in sem.items() if okm))
 
     # positive control: same-direction rotation on both sides must be reported by the 'not identical' obligation
     ctx.control("C15.R2", a_neg != a)
